@@ -92,21 +92,43 @@ def union(ctx, report, facts, config, rule="C07.UNION"):
                 problems.append("the controller's declared %s (<T::BatchSystemData as SystemData>::%s()) are not added exactly once" % (label, meth))
             report.ob(rule, "add_batch/%s" % label, not problems, "; ".join(sorted(set(problems))) if problems else
                       "%s = %s(inner) + controller's declared %s" % (label, fab.name, meth), site=b.loc(), config=config)
-        # SAME: reads happen before build consumes the builder; the built dispatcher goes to create
+
+
+def assembly(ctx, report, facts, config, rule="C07.SAME"):
+    """add_batch builds the very builder it was given - all its stages and thread-local systems - after reading its
+    tables, hands the built dispatcher to BatchControllerSystem::create and registers the result through self.add."""
+    b = facts.one(A.DB + "::add_batch")
+    report.touched(b, config)
+    far = facts.one(A.SB + "::fetch_all_reads")
+    faw = facts.one(A.SB + "::fetch_all_writes")
+    build = facts.one(A.DB + "::build")
+    create = facts.one(name="create", self_head=A.BCS, container="inherent")
+    addb = facts.one(A.DB + "::add")
+    newb = facts.one(name="new", self_head=A.BACC, container="inherent")
+    ev, ends = Q.sem(ctx, facts, A.DB + "::add_batch", opaque=[far.key, faw.key, build.key, create.key, addb.key, newb.key])
+    rets = [e for e in ends if e.kind == "return"]
+    if not rets:
+        report.ob(rule, "add_batch/assembly", False, "no normal path through add_batch", site=b.loc(), config=config)
+    for e in rets:
+        calls = [x for x in e.path.events if x[0] == "call"]
+        pos = dict((id(x), i) for i, x in enumerate(e.path.events))
+        news = [x for x in calls if x[2].key == newb.key]
         builds = [x for x in calls if x[2].key == build.key]
         creates = [x for x in calls if x[2].key == create.key]
         adds = [x for x in calls if x[2].key == addb.key]
         fas = [x for x in calls if x[2].key in (far.key, faw.key)]
-        ok = len(builds) == 1 and len(creates) == 1 and len(adds) == 1 and len(fas) == 2
+        ok = len(builds) == 1 and len(creates) == 1 and len(adds) == 1 and len(fas) == 2 and len(news) == 1
         detail = "%d build / %d create / %d add / %d fetch_all" % (len(builds), len(creates), len(adds), len(fas))
         if ok:
-            ok = (builds[0][3] == (("param", 3),) and all(pos[id(f)] < pos[id(builds[0])] for f in fas)
+            # nothing but the pool slot of the given builder is replaced before it is built
+            other_stores = [x for x in e.path.events if x[0] == "store" and x[2][0] == "field" and x[2][1] == ("param", 3) and x[2][2] != "thread_pool"]
+            ok = (builds[0][3] == (("param", 3),) and not other_stores and all(pos[id(f)] < pos[id(builds[0])] for f in fas)
                   and creates[0][3][0] == news[0][4] and creates[0][3][1] == ("param", 2)
                   and creates[0][3][2] == builds[0][4]
                   and adds[0][3][0] == ("param", 1) and adds[0][3][1] == creates[0][4] and adds[0][3][2:] == (("param", 4), ("param", 5)))
             detail = ("tables are read before dispatcher_builder.build(); create(accessor, controller, built dispatcher); registered with self.add(batch, name, dep)" if ok
-                      else "the batch system is not assembled from (accessor, controller, dispatcher_builder.build()) and registered through self.add")
-        report.ob("C07.SAME", "add_batch/assembly", ok, detail, site=b.loc(), config=config)
+                      else "the batch system is not assembled from (accessor, controller, dispatcher_builder.build()) - the builder that was given, with everything registered on it - and registered through self.add")
+        report.ob(rule, "add_batch/assembly", ok, detail, site=b.loc(), config=config)
 
 
 def all_rule(ctx, report, facts, config, rule="C07.ALL"):
@@ -193,6 +215,7 @@ def run(ctx, report):
     for config in ctx.configs:
         facts = ctx.facts(config)
         report.guard("C07.UNION", union, ctx, report, facts, config)
+        report.guard("C07.SAME", assembly, ctx, report, facts, config)
         report.guard("C07.ALL", all_rule, ctx, report, facts, config)
         report.guard("C07.WIRE", wire, ctx, report, facts, config)
         report.guard("C07.PLAN", c04.batch_run, ctx, report, facts, config, "C07.PLAN")
